@@ -106,6 +106,9 @@ func setupC10(x *Ctx) {
 				case "cancel":
 					// what does the hub itself say right before? (clause 3)
 					st := int(n.hub.PairingDetailForSki(tski).State())
+					if _, has := n.hub.VerifConnections()[tski]; !has {
+						st += 100
+					}
 					x.Ev("cancel-sees", name, op.Target, st)
 					n.hub.CancelPairingWithSKI(tski)
 				case "disconnect":
@@ -161,6 +164,8 @@ func checkUserIntent(x *Ctx, r *hubRig, names []string) {
 	everAuto := map[string]bool{}   // auto-accept pairs inbound SKIs without the user: dial checks do not apply
 	cancelActive := map[pair]bool{} // a pending request was cancelled and no register followed yet
 	cancelSawPending := map[pair]bool{}
+	cancelSawNoConn := map[pair]bool{}
+	cancelNoConnActive := map[pair]bool{}
 	skiNode := func(ski string) string { return r.skiName(ski) }
 	autoOffAt := map[string]time.Duration{}
 	attemptOK := map[string]bool{}
@@ -177,6 +182,7 @@ func checkUserIntent(x *Ctx, r *hubRig, names []string) {
 				registeredInv[p] = true
 				unregRet[p] = 0
 				cancelActive[p] = false
+				cancelNoConnActive[p] = false
 			case "autoaccept-on":
 				autoAccept[e.A] = true
 				everAuto[e.A] = true
@@ -198,6 +204,10 @@ func checkUserIntent(x *Ctx, r *hubRig, names []string) {
 					cancelActive[p] = true
 					cancelSawPending[p] = false
 				}
+				if cancelSawNoConn[p] {
+					cancelNoConnActive[p] = true
+					cancelSawNoConn[p] = false
+				}
 			case "shutdown":
 				shutdownRet[e.A] = e.Seq
 				shutdownAt[e.A] = e.T
@@ -207,7 +217,8 @@ func checkUserIntent(x *Ctx, r *hubRig, names []string) {
 				autoOffAt[e.A] = e.T
 			}
 		case "cancel-sees":
-			cancelSawPending[pair{e.A, e.B}] = e.N == 3 // received pairing request: a pending handshake
+			cancelSawPending[pair{e.A, e.B}] = e.N == 3  // received pairing request: a pending handshake
+			cancelSawNoConn[pair{e.A, e.B}] = e.N >= 100 // no connection registered at all when cancel was called
 		case "attempt":
 			// the hub decides to connect: this is where user intent must cover it;
 			// the dials of this attempt (host name, then each address) may come later
@@ -250,7 +261,12 @@ func checkUserIntent(x *Ctx, r *hubRig, names []string) {
 				registeredInv[p] = true
 				unregRet[p] = 0
 				cancelActive[p] = false
+				cancelNoConnActive[p] = false
 				continue
+			}
+			if cancelNoConnActive[p] {
+				x.Violate("setup-after-cancel", "no-connection-at-cancel", fmt.Sprintf("hub %s: CancelPairingWithSKI(%s) returned while no connection to it existed (trust withdrawn), no register followed, auto-accept off - yet a later handshake completed", e.A, p.y))
+				return
 			}
 			if unregRet[p] != 0 && !registeredInv[p] && !autoAccept[e.A] {
 				// an inbound handshake from an unregistered SKI completed (auto accept off)
